@@ -8,7 +8,7 @@ Tie:      one (site, exception class, args[0], cutoff-before) per case: a script
           exception left the method are compared with the Lean driver (engine `errno`).
 Oracle:   (independent of the model) the three clauses of the property computed from Python's own errno / ssl names.
 """
-import errno, ssl, socket, types, os
+import errno, ssl, socket, types, os, itertools
 from collections import deque
 import core
 from props import _wa_doubles as D
@@ -257,6 +257,51 @@ def real_scenario(name):
                 pass
 
 
+GRAM_ENTRIES = ["serviceTxPkts", "serviceTxPktsOnce", "serviceAllTx", "serviceAllTxOnce", "serviceAll"]
+
+
+class ScriptedUdp:
+    """UDP socket double: every sendto takes its answer from a script (None = sent); nothing to receive"""
+
+    def __init__(self, script):
+        self.script, self.sent, self.closed = deque(script), [], False
+
+    def sendto(self, data, da):
+        ans = self.script.popleft() if self.script else None
+        if ans is not None:
+            raise make_exc(*ans)
+        self.sent.append((bytes(data), da))
+        return len(data)
+
+    def recvfrom(self, bs):
+        raise D.oserr(errno.EAGAIN)
+
+    def close(self):
+        self.closed = True
+
+
+def gram_service(entry, pkts, script):
+    """queue `pkts` on a GramStack over a SocketUdpNb whose socket is a double, call one transmit entry point"""
+    from ioflo.aio.proto import stacking
+    from ioflo.aio.udp import udping
+    handler = udping.SocketUdpNb(ha=("127.0.0.1", 0))
+    handler.reopen = lambda: True
+    stack = stacking.GramStack(handler=handler)
+    sock = ScriptedUdp(script)
+    handler.ss, handler.opened = sock, True
+    for pid, dest in pkts:
+        stack.txPkts.append((types.SimpleNamespace(packed=bytes([pid])), ("10.0.0.%d" % dest, 4000 + dest)))
+    status = "ok"
+    try:
+        getattr(stack, entry)()
+    except OSError:
+        status = "raised"
+    except Exception as ex:
+        status = "ERR-" + type(ex).__name__
+    fmt = lambda items: ",".join("%d:%d" % (data[0], da[1] - 4000) for data, da in items) or "."
+    return "%s sent=%s q=%s" % (status, fmt(sock.sent), fmt([(p.packed, da) for p, da in stack.txPkts]))
+
+
 class CHECK(core.Check):
     PROPERTY = "C25"
     LEAN_MODULES = ["IofloModel.Props.C25"]
@@ -273,7 +318,10 @@ class CHECK(core.Check):
             "site is not the bare SocketUdpNb.send; distinct by the whole case. Plus 8 scenarios on REAL loopback sockets "
             "(TCP reset seen by receive and by send on Client and Incomer, EPIPE after a reset, ICMP port-unreachable on a "
             "connected UDP socket under GramStack receive and send, connect_ex to a dead port): the exception the kernel "
-            "produced is recorded and classified by the model, the observed outcome compared.")
+            "produced is recorded and classified by the model, the observed outcome compared. Plus the datagram stack's five "
+            "transmit entry points (serviceTxPkts, serviceTxPktsOnce, serviceAllTx, serviceAllTxOnce, serviceAll) over every "
+            "queue of <= 3 packets to 2 destinations and every script of <= 2 (quick) / 3 (thorough) sendto answers "
+            "(sent, two transient errnos, one fatal), and random longer ones: packets sent and packets still queued compared.")
     TRUSTED = ["correspondence: the real methods run in-process over doubles whose socket call raises the scripted exception; "
                "ssl context stub whose wrap_socket returns the double; GramStack over a SocketUdpNb whose .ss is a double",
                "errno values are Linux's; the model's constants are compared with Python's errno/ssl modules on every run",
@@ -307,6 +355,14 @@ class CHECK(core.Check):
                 yield {"real": name, "rep": rep}
         for name in CONSTS:
             yield {"const": name}
+        # every transmit entry point of the datagram stack, every small queue, every short script of sendto answers
+        answers = [None, ["osError", errno.ECONNREFUSED], ["osError", errno.EHOSTUNREACH], ["osError", errno.EPIPE]]
+        queues = [[[i + 1, d] for i, d in enumerate(ds)] for n in (1, 2, 3) for ds in itertools.product((7, 8), repeat=n)]
+        for entry in GRAM_ENTRIES:
+            for q in queues:
+                for n in range(0, (3 if tier == "thorough" else 2) + 1):
+                    for sc in itertools.product(answers, repeat=n):
+                        yield {"gram": entry, "pkts": q, "script": [a for a in sc]}
         codes = range(0, 136) if tier == "thorough" else INTERESTING
         for code in codes:
             yield {"connect": code}
@@ -322,6 +378,14 @@ class CHECK(core.Check):
             if x < 0.03:
                 yield {"connect": rng.choice([0, errno.EISCONN, errno.EINVAL, errno.ECONNREFUSED, errno.EINPROGRESS,
                                               rng.randrange(200)])}
+                continue
+            if x < 0.10:
+                n = rng.randrange(1, 7)
+                yield {"gram": rng.choice(GRAM_ENTRIES),
+                       "pkts": [[i + 1, rng.choice([7, 8, 9])] for i in range(n)],
+                       "script": [rng.choice([None, None, ["osError", rng.choice(D.LOSS + [errno.ETIME])],
+                                              ["osError", rng.choice(D.OTHER + D.WOULD)]])
+                                  for _ in range(rng.randrange(0, n + 2))]}
                 continue
             site = rng.choice(SITES)
             cls = rng.choice(CLASSES + ["osError"] * 5)
@@ -351,6 +415,10 @@ class CHECK(core.Check):
         if "real" in case:
             eq = self.equiv(case)
             return self.requests(eq) if eq is not None else ["errno EAGAIN"]
+        if "gram" in case:
+            pk = ",".join("%d:%d" % (i, d) for i, d in case["pkts"]) or "."
+            ans = " ".join("ok" if a is None else "%s:%d" % (a[0], a[1]) for a in case["script"])
+            return [("gram %s %s %s %s" % (MODEL, case["gram"], pk, ans)).rstrip()]
         if "const" in case:
             return ["errno " + case["const"]]
         if "connect" in case:
@@ -411,6 +479,11 @@ class CHECK(core.Check):
         return stack, handler
 
     def impl(self, case):
+        # the transports' logging statements are code on the data path: every case runs at a verbosity of its own
+        with D.console_at(D.verbosity_of(core.case_key(case))):
+            return self._impl_at_level(case)
+
+    def _impl_at_level(self, case):
         if "real" in case:
             try:
                 eq, obs = real_scenario(case["real"])
@@ -418,6 +491,8 @@ class CHECK(core.Check):
                 eq, obs = None, "real-skip"
             self._equiv[core.case_key(case)] = eq
             return [obs]
+        if "gram" in case:
+            return [gram_service(case["gram"], case["pkts"], case["script"])]
         if "const" in case:
             name = case["const"]
             return [str(getattr(ssl, name) if name.startswith("SSL_") else getattr(errno, name))]
@@ -512,6 +587,19 @@ class CHECK(core.Check):
         if "real" in case:
             eq = self.equiv(case)
             return None if eq is None else self.oracle(eq, out)
+        if "gram" in case:
+            # transient destination errors are retryable: if nothing else went wrong, nothing is raised and every
+            # packet has been sent or is still queued - never lost, never duplicated
+            if not all(a is None or (a[0] == "osError" and a[1] in D.LOSS) for a in case["script"]):
+                return None
+            status, sent, q = out[0].split()
+            ids = lambda f: [] if f.split("=")[1] == "." else [int(e.split(":")[0]) for e in f.split("=")[1].split(",")]
+            what = "%s %s script %s" % (case["gram"], case["pkts"], case["script"])
+            if status != "ok":
+                return "%s: a transient destination error was fatal (%s)" % (what, status)
+            if sorted(ids(sent) + ids(q)) != sorted(i for i, _ in case["pkts"]):
+                return "%s: packets sent %s + still queued %s are not the packets that were queued" % (what, ids(sent), ids(q))
+            return None
         if "const" in case:
             return None
         if "connect" in case:
@@ -578,6 +666,8 @@ class CHECK(core.Check):
     def nontrivial(self, case, out):
         if "real" in case:
             return self.equiv(case) is not None
+        if "gram" in case:
+            return any(a is not None for a in case["script"][:len(case["pkts"])])
         if "site" not in case:
             return False
         return well_formed(case["site"], case["cls"], case["arg0"]) and case["site"] != "udpSend"
@@ -587,6 +677,9 @@ class CHECK(core.Check):
             eq = self.equiv(case)
             return "real/%s/%s" % (case["real"], "no-error" if eq is None else
                                    eq.get("arg0", eq.get("connect")))
+        if "gram" in case:
+            kinds = {"sent" if a is None else "transient" if a[1] in D.LOSS else "other" for a in case["script"]}
+            return "gram/%s/%s" % (case["gram"], "+".join(sorted(kinds)) or "empty")
         if "site" not in case:
             return "const" if "const" in case else "connect"
         site, cls, n = case["site"], case["cls"], case["arg0"]
